@@ -542,7 +542,7 @@ def gen_case(rng):
         if rng.random() < 0.2:
             c = dict(rng.choice(EZ_SAMPLER))
             c.update({'kind': 'sample', 'cls': 'ez-slash-sampler', 'seed': rng.randint(0, 10 ** 6), 'w': rng.choice([80, 150, 300])})
-            return c
+            return small_target(rng, c)
         return {'kind': 'resolve', 'cls': 'ez-slash', 's': ez_slash(rng), 'legacy': True}
     if rng.random() < 0.07:
         return {'kind': 'resolve', 'cls': 'squash-hcap', 's': squash_hcap(rng), 'legacy': True}
@@ -582,7 +582,7 @@ def gen_case(rng):
         if rng.random() < 0.25:
             c = dict(rng.choice(COLON_SAMPLER))
             c.update({'kind': 'sample', 'cls': 'colon-kekule-sampler', 'seed': rng.randint(0, 10 ** 6), 'w': rng.choice([40, 80, 120])})
-            return c
+            return small_target(rng, c)
         return {'kind': 'resolve', 'cls': 'colon-kekule', 's': rng.choice(COLON_KEKULE), 'legacy': True}
     if rng.random() < 0.5:
         c = dict(rng.choice(SAMPLER_TERMINAL))
@@ -590,6 +590,21 @@ def gen_case(rng):
         return c
     c = dict(rng.choice(SAMPLER))
     c.update({'kind': 'sample', 'cls': 'sampler', 'seed': rng.randint(0, 10 ** 6), 'w': rng.choice([30, 60, 100, 150])})
+    return small_target(rng, c)
+
+
+def small_target(rng, c):
+    """sometimes: a target weight below / around the mass of ONE fragment (the chain may end after the start fragment),
+    and the start fragment named"""
+    import re
+    r = rng.random()
+    if r < 0.45:
+        c['w'] = rng.choice([1, 10, 20, 28, 30, 31, 40, 45, 46, 50, 58, 72, 100, 104, 105])
+        c['cls'] = c['cls'] + '-small-target'
+    if rng.random() < 0.4 and 'start' not in c:
+        names = re.findall(r'#(\w+)=', c['s'])
+        if names:
+            c['start'] = rng.choice(names)
     return c
 
 
@@ -602,7 +617,7 @@ FRAG_TEXTS = ['CC', 'C[H]', '[H]C([H])([H])C', '[H]', 'H', 'O', '[OH2]', 'C[NH3+
               '[$]CC[$]', '[>]CC(C)[<]', 'C[H;w=0.5]', 'C([H;x=a])O', '[C;0][$]', '[C;w=0.25]C[$]=', '[H][H]', '[2H]C',
               '[H]O[H]', 'C[H:1]', '[H+]', 'C#C[H]', '[H]C=O', '[$][H]', 'N[H;q=1]', '[OH;0.5][C;0.1][$]C[$]O', '[CH3][H]',
               'C1CC1[H]', '[$]c1ccccc1[H;w=0]', 'F/C=C/F', '[>]O/C=C/[<]', 'C\\C=C/[$]', '[>]S/C=C(/[<])[<]', '[$]N(C)/C=C\\[$]',
-              '[H]/C=C/F', 'OC=C/', 'C/C=C/[$]C', '[Na+]', 'C[N+](C)(C)[H]', '[H]N([H])C(=O)C']
+              '[H]/C=C/F', 'OC=C/', 'C/C=C/[$]C', '[$]=CC=[$]', 'C(=[$])[$]', '[>]#CC', 'N[$]C[$]=', '[$]=C[$]', 'c1ccccc1[$]', '[<]=N[>]', '[Na+]', 'C[N+](C)(C)[H]', '[H]N([H])C(=O)C']
 
 
 AROM_TEXTS = ['c1ccccc1', 'c1ccc2ccccc2c1', 'c1ccc2c(c1)[nH]cc2', 'c1ccsc1', 'c1cc[nH]c1', 'c1ccncc1', 'c1ccoc1', 'c1cnc[nH]1',
@@ -946,6 +961,13 @@ class C09(common.Prop):
                  '{[#T][#V][#W][#T]}.{#V=[>]C(C)(C)/C=C/[<],#W=[>]O/C=C/C[<],#T=[>]C[<]}']]
         out.append(dict(EZ_SAMPLER[0], kind='sample', cls='corpus', seed=7, w=300))
         out += [{'kind': 'resolve', 'cls': 'corpus', 's': s, 'legacy': True} for s in CHIRAL_FIXED[:6]]
+        # target weights below / around the mass of one fragment, start fragment given or drawn (seed C09-11)
+        out += [{'kind': 'sample', 'cls': 'corpus', 's': '{#PEO=[>]COC[<],#PE=[>]CC[<]}', 'react': {'>': 0.5, '<': 0.5}, 'seed': 3, 'w': 40},
+                {'kind': 'sample', 'cls': 'corpus', 's': '{#PEO=[>]COC[<],#PE=[>]CC[<]}', 'react': {'>': 0.5, '<': 0.5}, 'seed': 4, 'w': 20,
+                 'start': 'PEO'},
+                {'kind': 'sample', 'cls': 'corpus', 's': '{#PS=[>]CC(c1ccccc1)[<],#M=[>]CC(C(=O)OC)[<]}', 'react': {'>': 0.4, '<': 0.6},
+                 'seed': 5, 'w': 100, 'start': 'PS'},
+                {'kind': 'sample', 'cls': 'corpus', 's': '{#A=[$]CC[$],#B=[$]C(C)C[$]}', 'react': {'$': 1.0}, 'seed': 6, 'w': 1}]
         # histories: a disturbing call first, then the judged call in the same process
         out.append({'kind': 'resolve', 'cls': 'corpus+history', 's': '{[#A][#B]}.{#A=[$]CC[$],#B=[$]OC}', 'legacy': True,
                     'prelude': ['mass-plain']})
@@ -978,6 +1000,13 @@ class C09(common.Prop):
             terms, summary = helper_extras(case['seed'])
             return {'helpers': terms, 'summary': summary}
         calls, final, exc = drive(case)
+        if not calls and isinstance(final, nx.Graph) and in_table(final) and modelable(final):
+            # a molecule came back although the hydrogen completion never ran: nothing to compare, but the molecule is
+            # an all-atom result of the resolver / sampler and is judged like any other
+            return {'before': lit.nxgraph(final), 'car': None, 'nocorr': True, 'match': '[]', 'rings': '[]', 'after': None,
+                    'exc': None, 'later_exc': exc, 'final': lit.obs_graph(final),
+                    'summary': {'before': summarise(final), 'final': summarise(final)}, 'coarse': case.get('_coarse', []),
+                    'py_code': py_holds_c09(final, final, case.get('_coarse', [])), 'no_rebuild': True}
         if not calls:
             return {'skip': exc or 'rebuild_h_atoms not reached'}
         # more than one call (no current code path does that): the last one produced the molecule that is returned; it
@@ -1019,6 +1048,8 @@ class C09(common.Prop):
             return 'helpers(' + ','.join('%s:%d' % kv for kv in sorted(impl['summary'].items())) + ')'
         if 'skip' in impl:
             return 'skipped:' + str(impl['skip'])
+        if impl.get('no_rebuild'):
+            return case['cls'] + ':returned-without-hydrogen-completion'
         if impl.get('nocorr'):
             return case['cls'] + ':not-compared(call outside the model)'
         if impl.get('exc'):
